@@ -558,6 +558,26 @@ fn cont_props(prop: &str, tier: &str, seed: u64, threads: usize, out: &str) {
                 gen_cont::serde_history_case(all[i % 4], &format!("h{i}"), &g, &mut rng)
             });
             extra.insert("histories".into(), format!("{nh} graphs serialised after members were removed and inserted again"));
+            // large documents (chunked or batched (de)serialisation): hundreds of edge records, long runs per source
+            exec::new_section();
+            let nlarge = if quick { 12 } else { 120 };
+            spread(&mut ctxs, nlarge, |i| {
+                let mut rng = Rng::new(seed.wrapping_mul(97).wrapping_add(i as u64));
+                let n = 40 + rng.below(120);
+                let m = [257, 300, 511, 513, 700, 1025][rng.below(6)] + rng.below(7);
+                let mut edges = vec![];
+                while edges.len() < m {
+                    let u = rng.below(n);
+                    // runs of consecutive records with one source, self-loops inside them
+                    for _ in 0..1 + rng.below(12) {
+                        let v = if rng.chance(12) { u } else { rng.below(n) };
+                        edges.push((u, v, rng.below(5) as u32));
+                    }
+                }
+                let g = gen_search::GraphSpec { n, vals: (0..n).map(|k| (k % 7) as i64 - 3).collect(), edges };
+                gen_cont::serde_case(all[i % 4], &format!("big{i}"), &g)
+            });
+            extra.insert("large".into(), format!("{nlarge} graphs with 257-1030 edge records"));
         }
         "C13" => {
             // seed documents: small graphs (self-loops, parallel edges) ; all single structural mutations
@@ -582,6 +602,30 @@ fn cont_props(prop: &str, tier: &str, seed: u64, threads: usize, out: &str) {
                 let docs: Vec<String> = (0..20).map(|_| gen_cont::random_mutation(&mut rng, &base)).collect();
                 gen_cont::de_case(all[i % 4], &format!("x{i}"), &docs)
             });
+            // documents with long runs of consecutive edges of one source, self-loops inside the runs (batched connects)
+            exec::new_section();
+            let nruns = if quick { 40 } else { 400 };
+            spread(&mut ctxs, nruns, |i| {
+                let mut rng = Rng::new(seed.wrapping_mul(101).wrapping_add(i as u64));
+                let n = 2 + rng.below(6);
+                let mut edges = vec![];
+                for _ in 0..1 + rng.below(3) {
+                    let u = rng.below(n);
+                    for _ in 0..6 + rng.below(14) {
+                        let v = if rng.chance(15) { u } else { rng.below(n) };
+                        edges.push((u, v, rng.below(4) as u32));
+                    }
+                }
+                if rng.chance(30) {
+                    let k = rng.below(edges.len());
+                    edges[k].1 = n + 5; // an undeclared key in the middle of a run
+                }
+                let g = gen_search::GraphSpec { n, vals: vec![1; n], edges };
+                let (ns, es): (Vec<String>, Vec<String>) = ((0..g.n).map(|k| format!("[{k},{}]", g.vals[k])).collect(), g.edges.iter().map(|(u, v, e)| format!("[{u},{v},{e}]")).collect());
+                let doc = format!("[[{}],[{}]]", ns.join(","), es.join(","));
+                gen_cont::de_case(all[i % 4], &format!("run{i}"), &[doc])
+            });
+            extra.insert("long_runs".into(), format!("{nruns} documents with runs of 6-20 consecutive edges of one source"));
             // byte level: raw documents (JSON compared exactly with the byte-level model, CBOR for robustness)
             let nraw = if quick { 3 } else { 40 };
             let mut njson = 0usize;
